@@ -13,54 +13,9 @@ from .interp import explore, PyRaise, Exec, PathEnd
 from .sbytes import SBytes
 from .sym import SInt, SBool, SAny, Unsupported, mk_bool, iterm, is_sym
 
-REGISTRY = {}          # key -> Contract
+from .api import REGISTRY, Contract, contract
+
 INLINE = object()
-
-
-class Contract:
-    def __init__(self, key, cls):
-        self.key = key
-        self.cls = cls
-        d = cls.__dict__
-        self.name = cls.__name__
-        self.args = d.get("args", {})
-        self.mode = d.get("mode", "contract")
-        self.pure = d.get("pure", False)
-        self.returns = d.get("returns", "any")
-        self.raises_only = d.get("raises_only", None)     # None = unspecified (anything), () = raises nothing
-        self.cover = d.get("cover", ())
-        self.modifies = d.get("modifies", None)
-        self.samples = d.get("samples", None)
-        self.repair = d.get("repair", None)
-        self.make_result = d.get("make_result", None)
-        self.make_raised = d.get("make_raised", None)
-        self.setup = d.get("setup", None)
-        self.requires = d.get("requires", None)
-        self.ensures = [(n, f) for n, f in d.items() if (n == "ensures" or n.startswith("ensures_")) and callable(f)]
-        self.raises = []      # (clause name, exception class name, fn)
-        for n, f in d.items():
-            if n.startswith("raises_") and callable(f) and n != "raises_only":
-                rest = n[len("raises_"):]
-                exc = rest.split("__")[0]
-                self.raises.append((n, exc, f))
-        self.loops = {}
-        for n, f in d.items():
-            if n.startswith("loop") and callable(f):
-                k, _, what = n[4:].partition("_")
-                self.loops.setdefault(int(k), {})[what] = f
-        self.bv_body = d.get("bv_body", ())
-        self.assumed = d.get("assumed", False)   # True: trusted contract of something outside /repo/goodwe
-        self.note = d.get("note", "")
-
-    def unwrap(self, f):
-        return getattr(f, "__func__", f)
-
-
-def contract(key):
-    def deco(cls):
-        REGISTRY[key] = Contract(key, cls)
-        return cls
-    return deco
 
 
 def load_sidecars(world, names):
